@@ -121,9 +121,9 @@ theorem model_bn_nonneg {o : Bottleneck.Graph → Bottleneck.Matching} (ho : Bot
 
 /-! ### Wasserstein -/
 
-/-- the Wasserstein model (with `Real.sqrt`, `cos (π/4)`, `sin (π/4)`) returned the value `w` -/
+/-- the Wasserstein model (with `Real.sqrt`) returned the value `w` -/
 def WsReturns (lsa : Wasserstein.Mat ℝ → List (Nat × Nat)) (d1 d2 : Wasserstein.Dgm ℝ) (w : ℝ) : Prop :=
-  ∃ rows, Wasserstein.wasserstein Real.sqrt (Real.cos (Real.pi / 4)) (Real.sin (Real.pi / 4)) lsa d1 d2
+  ∃ rows, Wasserstein.wasserstein Real.sqrt lsa d1 d2
     = .ok ⟨some w, Wasserstein.warned d1, Wasserstein.warned d2, rows⟩
 
 /-- **C02 restated**: the model returns the Wasserstein distance of the finite parts, for every
